@@ -543,22 +543,36 @@ fn quals_step(q: &mut Qualifiers, a: &[&str]) -> Result<String, String> {
                 },
             }
         },
+        // the retain predicates also log what they are shown: every pair exactly once, in order (a predicate may carry state)
         "retne" => {
-            q.retain(|_, v| !v.is_empty());
-            ".".to_string()
+            let before: Vec<String> = q.iter().map(|(k, _)| k.to_string()).collect();
+            let mut seen: Vec<String> = vec![];
+            q.retain(|k, v| {
+                seen.push(k.to_string());
+                !v.is_empty()
+            });
+            if seen == before { ".".to_string() } else { ".!visits".to_string() }
         },
         "retlt" => {
             let k = unh(arg(a, 1)?)?;
-            q.retain(|qk, _| qk.as_str() < k.as_str());
-            ".".to_string()
+            let before: Vec<String> = q.iter().map(|(k, _)| k.to_string()).collect();
+            let mut seen: Vec<String> = vec![];
+            q.retain(|qk, _| {
+                seen.push(qk.to_string());
+                qk.as_str() < k.as_str()
+            });
+            if seen == before { ".".to_string() } else { ".!visits".to_string() }
         },
         "retmut" => {
             let x = unh(arg(a, 1)?)?;
+            let before: Vec<String> = q.iter().map(|(k, _)| k.to_string()).collect();
+            let mut seen: Vec<String> = vec![];
             q.retain_mut(|qk, v| {
+                seen.push(qk.to_string());
                 v.push_str(&x);
                 qk.as_str().len() % 2 == 1
             });
-            ".".to_string()
+            if seen == before { ".".to_string() } else { ".!visits".to_string() }
         },
         "clear" => {
             q.clear();
